@@ -722,6 +722,8 @@ def explore(ctx, m, tags, e, ename, info, pending, deep=True):
 
     def corr_normalize(kind, sel, seljson):
         """model normalisation against Mesh.normalize_*"""
+        if isinstance(sel, np.ndarray) and sel.dtype == bool:
+            return      # a mask is handed through unchanged; it selects by NumPy indexing (compared on the DOFs)
         fn = {"facets": m.normalize_facets, "elements": m.normalize_elements, "nodes": m.normalize_nodes}[kind]
         try:
             impl = {"raises": False, "ix": aslist(fn(sel))}
@@ -792,6 +794,11 @@ def explore(ctx, m, tags, e, ename, info, pending, deep=True):
             forms.append(("tag", label[4:], {"tag": label[4:]}))
         if len(S) == 1:
             forms.append(("int", int(S[0]), {"int": int(S[0])}))
+        if S:
+            # a boolean mask over all facets (NumPy indexing accepts it wherever an index array is accepted)
+            fmask = np.zeros(nfac, dtype=bool)
+            fmask[S] = True
+            forms.append(("bool-mask", fmask, {"idx": list(S)}))
         if S:
             # collections: split the set in two or three parts given in different forms
             cut = rng.randint(0, len(S))
@@ -1018,6 +1025,10 @@ def explore(ctx, m, tags, e, ename, info, pending, deep=True):
         if len(S) == nt:
             forms.append(("True", True, {"all": True}))
         if S:
+            cmask = np.zeros(nt, dtype=bool)
+            cmask[S] = True
+            forms.append(("bool-mask", cmask, {"idx": list(S)}))
+        if S:
             cut = rng.randint(0, len(S))
             partA, partB = messy_array(rng, S[:cut]), messy_array(rng, S[cut:])
             mk = rng.choice([list, tuple])
@@ -1090,6 +1101,10 @@ def explore(ctx, m, tags, e, ename, info, pending, deep=True):
             keysB = keyset(p[:, partB]) if partB else set()
             forms.append(("list", [partA, member_pred(keysB)],
                           {"coll": [{"idx": aslist(partA)}, {"pred": [q in set(partB) for q in range(p.shape[1])]}]}))
+        if S:
+            nmask = np.zeros(p.shape[1], dtype=bool)
+            nmask[S] = True
+            forms.append(("bool-mask", nmask, {"idx": list(S)}))
         if len(S) == 1:
             pt = tuple(float(x) for x in p[:, S[0]])
             forms.append(("point-tuple", pt, {"pred": [q == S[0] for q in range(p.shape[1])]}))
